@@ -12,8 +12,8 @@ def _md(alg, unit, extra=None):
          "bound": "message length <= 600 bytes (nine blocks: every buffer fill level and both padding layouts several times); the representation invariant does not mention absolute positions beyond the length counter, which is checked for off < 2^29"}
     if unit in ("update", "final"):
         j["cases"] = [("fill%d" % k, "(off & 63) == %d" % k) for k in range(64)]
-        j["cases_quick"] = ["fill0", "fill1", "fill55", "fill56", "fill63"]
-        j["cases_quick_note"] = ("quick tier: buffer fill levels 0, 1, 55, 56 (the padding boundary) and 63; "
+        j["cases_quick"] = ["fill0", "fill55", "fill63"] if unit == "update" else ["fill0", "fill1", "fill55", "fill56", "fill63"]
+        j["cases_quick_note"] = ("quick tier: buffer fill levels 0, 55, 63 for Update (0, 1, 55, 56, 63 for Final); "
                                  "thorough tier: all 64 fill levels (exhaustive)")
         j["timeout"] = 1200
     j.update(extra or {})
@@ -77,8 +77,8 @@ def _sha256(unit):
          "bound": "message length <= %d bytes; the bulk loop of Update is closed by a loop contract, so the number of blocks per call is not what the bound limits - it bounds the ghost padded-message object" % SHA256_MAXLEN}
     if unit in ("update", "final"):
         j["cases"] = [("fill%d" % k, "(off & 63) == %d" % k) for k in range(64)]
-        j["cases_quick"] = ["fill0", "fill1", "fill55", "fill56", "fill63"]
-        j["cases_quick_note"] = ("quick tier: buffer fill levels 0, 1, 55, 56 (the padding boundary) and 63; "
+        j["cases_quick"] = ["fill0", "fill55", "fill63"] if unit == "update" else ["fill0", "fill55", "fill56", "fill63"]
+        j["cases_quick_note"] = ("quick tier: buffer fill levels 0, 55, 63 for Update (0, 55, 56, 63 for Final); "
                                  "thorough tier: all 64 fill levels (exhaustive)")
     if unit == "update":
         st = " && ".join("ctx->state[%d] == G_STATE[G_NBLK][%d]" % (k, k) for k in range(8))
@@ -129,8 +129,8 @@ def _sha1(unit):
     if unit == "update":
         j["replace_calls"] = ["sha1_do_transform:transform_stub"]
         j["cases"] = [("fill%d" % k, "(off & 63) == %d" % k) for k in range(64)]
-        j["cases_quick"] = ["fill0", "fill1", "fill55", "fill56", "fill63"]
-        j["cases_quick_note"] = "quick tier: buffer fill levels 0, 1, 55, 56 and 63; thorough tier: all 64 (exhaustive)"
+        j["cases_quick"] = ["fill0", "fill55", "fill63"]
+        j["cases_quick_note"] = "quick tier: buffer fill levels 0, 55 and 63; thorough tier: all 64 (exhaustive)"
         j["loops"] = [{"function": "_crypt_sha1_process_bytes", "anchor": "for ( ; i + 63 < size; i += 64)",
                        "invariant": "G_NBLK <= %d && i <= size && g_off0 + i == 64 * G_NBLK && g_off0 + size <= G_LEN && " % (SHA1_MAXLEN // 64)
                                     + st.replace("%s", "G_NBLK"),
